@@ -60,16 +60,18 @@ func (f *Logcount) Call(s *slip.Scope, args slip.List, depth int) slip.Object {
 			}
 		}
 	case *slip.Bignum:
-		ba := (*big.Int)(ti).Bytes()
-		for _, b := range ba {
+		// The zero bits of a negative integer in two's complement are the
+		// one bits of (lognot integer).
+		var bi big.Int
+		if bi.Set((*big.Int)(ti)).Sign() < 0 {
+			bi.Not(&bi)
+		}
+		for _, b := range bi.Bytes() {
 			for i := 0; i < 8; i++ {
 				if (b>>i)&0x01 == 1 {
 					cnt++
 				}
 			}
-		}
-		if (*big.Int)(ti).Sign() < 0 && 0 < cnt {
-			cnt--
 		}
 	default:
 		slip.TypePanic(s, depth, "integer", ti, "integer")
